@@ -133,6 +133,7 @@ def _job(func, s, n, neg, mmax, region_src, timeout, with_bound=True, asint=Fals
         return eval(region_src, {'z3': z3, 'M': Mv, 's': s, 'n': n, 'URem': z3.URem, 'BV': lambda v: z3.BitVecVal(v, W)}) if region_src else z3.BoolVal(False)
 
     def run(ex):
+        ex.solver.set('timeout', int((400 if timeout <= 300 else 600) * 1000))        # a single query that does not close in time is 'unknown' (inconclusive), never a verdict
         ex.assume(z3.And(z3.ULT(M, mmax), z3.UGE(M, 1)))
         mag = z3.fpDiv(RNE, to_fp(M), z3.FPVal(10 ** s, F64))
         x = (SymIntFloat if asint else SymFloat)(ex, z3.fpNeg(mag) if neg else mag)
@@ -323,7 +324,7 @@ def native(func, m, s, n, neg, asint=False):
 def run(report, tier, seed):
     ss = [0, 1, 2] if tier == 'quick' else [0, 1, 2, 3, 4]
     ns = [-1, 0, 1, 2] if tier == 'quick' else list(range(-3, 7))
-    mmax = 2000 if tier == 'quick' else 10 ** 5
+    mmax = 2000 if tier == 'quick' else 5000
     to = 240 if tier == 'quick' else 1500
     kf = {f: findings.for_harness('C16', f) for f in FUNCS}
     jobs = []
@@ -340,7 +341,13 @@ def run(report, tier, seed):
             for neg in (False, True):
                 jobs.append((f'{f}_int_n{n}_{"neg" if neg else "pos"}', _job, (f, 0, n, neg, mmax, None, to, False, True)))
     jobs.append(('formulas', _formula_job, (tier,)))
-    jobs.sort(key=lambda j: 0 if j[0] == 'formulas' else 1)       # the formula-level job first (it is cheap and must not fall to the budget)
+    def _rank(j):
+        if j[0] == 'formulas':
+            return 0
+        args = j[2]
+        quick_like = args[1] in (0, 1, 2) and args[2] in (-1, 0, 1, 2)
+        return 1 if quick_like else 2
+    jobs.sort(key=_rank)       # the formula-level job first (cheap), then the (s, n) pairs of the quick tier, then the deeper ones       # the formula-level job first (it is cheap and must not fall to the budget)
     res = e2.run_jobs(jobs, NCPU, deadline=to * 2 + 120, total=900 if tier == "quick" else 2400)
     fr = res.pop('formulas', {'error': 'formula job missing'})
     if 'error' in fr:
